@@ -360,3 +360,49 @@ Example C14_history_nontrivial :
   acks (fst (fst (rrun (s1, []) es))) (RecvEmpty 0 2 0) 0 = true /\
   gcount (s1, []) (es ++ [Ev (RecvEmpty 0 2 0); Ev Fire; Ev Fire]) 0 = 4%nat.
 Proof. split; [split; [cbn; auto|reflexivity]|]. vm_compute. repeat split. Qed.
+
+(* ---- round 7: the remote r ITSELF is refused by the transport (whatever else is refused).  Vocabulary (Proofs/C14R7.v):
+   [wsil r o]: no output in o is a datagram handed successfully to the transport for r ([Tx m _] with m_remote m = r, or
+   [TxEmpty r _ _]).  For the step s --e--> (s', o) under refusals l:
+   [Discarded l r s e]: aget r (backlogs s') = None /\ exs r s' = [] /\ left r o = backlog_of r s ++ subm r o
+     (exchange and queue entry gone; the whole queue and whatever confirmable message was submitted in this step left the
+     accounting in this step — with [wsil], as [Dropped], not on the wire);
+   [Kept l r s e]: exs r s' = exs r s /\ left r o = [] /\ backlog_of r s' = backlog_of r s ++ subm r o /\
+     (aget r (backlogs s') = None <-> aget r (backlogs s) = None)
+     (same exchange, nothing left the queue, queue = old queue ++ the confirmable submissions of this step).
+   [attempts s e r]: e hands a datagram for r to the transport or ends r's exchange — submission of a NON or of a CON that is
+   not held back (request, raw response, responder's response), a CON from r (answered by an empty ACK/RST), an ACK/RST with
+   the message ID of the open exchange, a transport error for r, the timer of r's exchange firing. *)
+From Verif Require Import Proofs.C14R7.
+(* every event, every state satisfying the invariant: kept or entirely discarded, nothing for r on the wire, no exception *)
+Theorem C14_refused_remote_every_event : forall l r, refuses l r = true -> forall s e, Inv s ->
+  let s' := fst (step_ev l s e) in let o := snd (step_ev l s e) in
+  Inv s' /\ (forall x, ~ In (Crash x) o) /\ wsil r o /\ (Discarded l r s e \/ Kept l r s e).
+Proof. exact refused_remote_step. Qed.
+Print Assumptions C14_refused_remote_every_event.
+(* which of the two: decided by the event and the state before *)
+Theorem C14_refused_remote_discarded_iff_attempt : forall l r, refuses l r = true -> forall s e, Inv s ->
+  if attempts s e r then Discarded l r s e else Kept l r s e.
+Proof. exact refused_remote_step_which. Qed.
+Print Assumptions C14_refused_remote_discarded_iff_attempt.
+(* liveness for a refused remote: ONE progress step (ACK/RST of the open exchange, failure, its timer firing) and every
+   held-back message has left the queue *)
+Theorem C14_refused_progress_discards : forall l r s e, refuses l r = true -> Inv s -> progress s e r = true ->
+  Discarded l r s e /\ forall m, In m (backlog_of r s) -> In m (left r (snd (step_ev l s e))).
+Proof. exact refused_progress_discards. Qed.
+Print Assumptions C14_refused_progress_discards.
+(* all of it from any reachable state of the general model: no hypothesis but "r is refused now" *)
+Theorem C14_refused_remote_reachable : forall mid0 token0 rnd es r e,
+  let s := fst (fst (rrun (init mid0 token0 rnd, []) es)) in let l := snd (fst (rrun (init mid0 token0 rnd, []) es)) in
+  refuses l r = true ->
+  let s' := fst (step_ev l s e) in let o := snd (step_ev l s e) in
+  Inv s' /\ (forall x, ~ In (Crash x) o) /\ wsil r o /\ (if attempts s e r then Discarded l r s e else Kept l r s e) /\
+  (progress s e r = true -> forall m, In m (backlog_of r s) -> In m (left r o)).
+Proof. exact refused_remote_reachable. Qed.
+Print Assumptions C14_refused_remote_reachable.
+(* non-vacuity: Proofs/C14R7.v [refused_remote_step_nontrivial] (vm_compute): on a reachable state with remote 0 refused and
+   one message queued, [attempts] takes both values, the timer / a NON / a CON response discard the queue, a further CON is
+   appended, an event about another remote keeps it *)
+Example C14_refused_remote_nontrivial : Inv s_busy /\ refuses [0] 0 = true /\ map m_sub (backlog_of 0 s_busy) = [Req 2] /\
+  attempts s_busy Fire 0 = true /\ attempts s_busy (Request 3 0 0 4) 0 = false /\ progress s_busy Fire 0 = true.
+Proof. split; [exact s_busy_inv|]. vm_compute. repeat split. Qed.
